@@ -2,12 +2,12 @@
 import json, re, sqlite3, itertools
 import vlib
 from vlib import Corr, Search, Failure, cz, clist, cstr
-from py2coq import c06quote
+from py2coq import c06quote, c06pin
 
 ID = 'C06'
 LEVEL = 'proof'
 PROPS = ['Props/C06.v', 'Findings/C06.v']
-GEN = [('Gen/C06Quote.v', c06quote.generate)]
+GEN = [('Gen/C06Quote.v', c06quote.generate), ('Gen/C06Pin.v', c06pin.generate)]
 TRUSTED = [
     'py2coq translator (tools/py2coq/core.py + c06quote.py): Value.quote_str, Value.__str__ (str, bytes paths), SQLiteValue/MySQLValue/PGValue.__str__, '
     'DBAPIProvider.quote_name, Param.__str__, the MOD symbol and StringMixin._like (constant and parameter branch per call site, ESCAPE character) are '
@@ -70,6 +70,7 @@ def run_bools(ctx, exprs, header=HEADER, chunk=1500, name='cases'):
     for i in range(0, len(exprs), chunk):
         part = exprs[i:i + chunk]
         chunks.append('Definition cases : list bool := [\n' + ';\n'.join(part) + '].\nEval vm_compute in (failing cases).\n')
+    ctx.mkscratch()      # before the worker threads: vlib.Ctx.mkscratch is not thread-safe (each thread would create its own directory)
     outs = vlib.coq_eval_many(ctx, header, chunks, name=name)
     bad = []
     for k, out in enumerate(outs):
@@ -391,6 +392,19 @@ def correspondence(ctx):
                         [prov, op, const, v], [pat, esc], any(c in v for c in '%_!'))
     add('like_escape_char', 'like_escape_char =? 33', [], '!')
 
+    # (4b) every external value the translator renders inline is recorded in fixed_param_values (what Model/C06Pin.v assumes of a miss)
+    for prov in PROVIDERS:
+        for src, g in RERUN_SITES:
+            for vals in ((3, 1), (0, 2), (-2, 5)):
+                gl = dict(zip(('x', 'y'), vals)); gl.update(g)
+                try: pinned, inlined = pinned_and_inlined(prov, src, gl)
+                except Exception as e:
+                    disagree('translator raised on a query with an inlined external value', [prov, src, vals], '%s: %s' % (type(e).__name__, e)); continue
+                dist['pinned_inline_values'] = dist.get('pinned_inline_values', 0) + 1
+                if sorted(map(repr, pinned)) != sorted(map(repr, inlined)):
+                    disagree('an external value is rendered inline but not recorded in fixed_param_values (or the reverse)', [prov, src, vals], {'recorded': pinned, 'inlined': inlined})
+                else: nontrivial.add(json.dumps(['pinned', prov, src, vals]))
+
     # (5) reference semantics against the linked SQLite / CPython
     con = sqlite3.connect(':memory:')
     con.execute('PRAGMA case_sensitive_like = true')
@@ -488,6 +502,30 @@ def correspondence(ctx):
                      'a LIKE case compares one pattern against %d subjects' % len(subjects))
 
 
+# the places where an EXTERNAL value is rendered inline (fixed_param_values is written): string index / slice bounds, getattr names
+RERUN_SITES = [('p.name[:x] for p in P', {}), ('p.name[x:] for p in P', {}), ('p.name[x:y] for p in P', {}), ('p.id for p in P if p.name[x] == "a"', {}),
+               ('p.name[1:y] for p in P', {}), ('getattr(p, nm) for p in P', {'nm': 'name'})]
+
+def pinned_and_inlined(prov, src, g):
+    """(values recorded in fixed_param_values, values of the external variables of the query that are not bound as PARAM anywhere)"""
+    from pony import orm
+    db, P = mock_db(prov)
+    db._translator_cache.clear(); db._constructed_sql_cache.clear()
+    with orm.db_session:
+        q = orm.select(src, dict(g, P=P))
+        tr = q._translator
+        pinned = list(tr.fixed_param_values.values())
+        bound = set()
+        def walk(x):
+            if isinstance(x, (list, tuple)):
+                if len(x) >= 2 and x[0] == 'PARAM' and isinstance(x[1], tuple): bound.add(x[1][0][1])
+                for y in x: walk(y)
+        walk(tr.conditions); walk(tr.expr_columns)
+        used = [k for k in ('x', 'y', 'nm') if re.search(r'\b%s\b' % k, src)]
+        inlined = [g[k] for k in used if k not in bound]
+    return pinned, inlined
+
+
 def _flatten(node):
     out = []
     for x in node:
@@ -503,10 +541,10 @@ def _python_accepts_more(t):
 
 # ------------------------------------------------------------------------------------------------ end-to-end on SQLite under every paramstyle
 
-def make_e2e(style):
+def make_e2e(style, tag=''):
     """A real SQLite Database whose provider is forced to `style`; a shim plays the driver: format/pyformat statements go
     through Python's % (as pymysql / psycopg2 do) with the arguments turned into bound markers, numeric :N becomes ?N."""
-    key = ('e2e', style)
+    key = ('e2e', style, tag)
     if key in _cache: return _cache[key]
     from pony import orm
     db = orm.Database('sqlite', ':memory:')
@@ -596,6 +634,51 @@ def populate(style, strs):
     return None
 
 
+RERUN_ROWS = ['alphabet', 'bracket', 'cardinal', "d'aff%odil", 'a', '', 'ab_!%']
+
+def rerun_dbs(style):
+    """two identically populated databases: 'rr' keeps its caches over the history, 'rr-ref' is cleared before every run"""
+    from pony import orm
+    for tag in ('rr', 'rr-ref'):
+        db, P, log = make_e2e(style, tag)
+        with orm.db_session:
+            if not db.get_connection().execute('SELECT count(*) FROM "P"').fetchone()[0]:
+                for s in RERUN_ROWS: P(name=s, n=len(s))
+                orm.commit()
+
+
+def rerun_once(style, tag, src, gl, cold):
+    from pony import orm
+    db, P, log = make_e2e(style, tag)
+    if cold: db._translator_cache.clear(); db._constructed_sql_cache.clear()
+    with orm.db_session:
+        del log[:]
+        try: rows = sorted(map(repr, orm.select(src, dict(gl, P=P)).without_distinct()[:]))
+        except Exception as e: rows = 'EXC %s: %s' % (type(e).__name__, str(e)[:150])
+        call = log[-1] if log else None
+    return rows, call
+
+
+def rerun_case(style, src, g, hist, names):
+    """run the history with warm caches; every step is compared with a cold-cache run of the same step on the twin database.
+    -> Failure for the first step that differs, or None"""
+    rerun_dbs(style)
+    db, P, log = make_e2e(style, 'rr')
+    db._translator_cache.clear(); db._constructed_sql_cache.clear()
+    for i, (x, y) in enumerate(hist):
+        gl = dict(g, x=x, y=y)
+        if 'nm' in g: gl['nm'] = names[i % len(names)]
+        warm = rerun_once(style, 'rr', src, gl, False)
+        ref = rerun_once(style, 'rr-ref', src, gl, True)
+        if warm != ref:
+            shown = {k: gl[k] for k in ('x', 'y', 'nm') if k in gl and re.search(r'\b%s\b' % k, src)}
+            return Failure('unlisted:rerun:%s:%s' % (style, src.split(' for ')[0].replace(' ', '')),
+                           'SQLite, paramstyle %s: %r run %d times with changing values; run %d with %r sends %r and returns %s; a cold-cache run sends %r and returns %s' % (
+                               style, src, i + 1, i + 1, shown, warm[1], str(warm[0])[:120], ref[1], str(ref[0])[:120]),
+                           {'kind': 'rerun', 'style': style, 'src': src, 'g': g, 'hist': [list(h) for h in hist[:i + 1]], 'names': names})
+    return None
+
+
 def e2e_failure(style, op, const, v, got, want, sql):
     key = 'unlisted:e2e:%s:%s:%s:%s' % (style, op, 'const' if const else 'param', classes(v))
     what = 'SQLite end to end, paramstyle %s: %s with %s %r returns ids %r, Python semantics gives %r; SQL: %s' % (
@@ -663,6 +746,18 @@ def search(ctx, deep):
             evals += 1; count('e2e_mod')
             if isinstance(got, str) or not set(got) <= {1, 2}:
                 fail(Failure('unlisted:e2e:%s:mod' % style, 'paramstyle %s: p.n %% 3 gives %r' % (style, got), {'kind': 'mod', 'style': style}))
+
+    # (f) re-execution: the same query text (one code object, one translator-cache key) run again and again with other values
+    #     for every place where an external value is rendered inline (string index / slice bounds, getattr names):
+    #     statement and rows of each run must be those of a cold-cache run with the value supplied for THAT run
+    hist = [(3, 5), (1, 4), (1, 4), (3, 5), (0, 2), (2, 2), (-2, 6), (None, 3), (4, None), (1, 4)]
+    if deep: hist = hist + [(rng_i % 7 - 2, rng_i % 5 + 1) for rng_i in range(3, 40)]
+    for style in (STYLES if deep else ['qmark', 'pyformat']):
+        for k, (src, g) in enumerate(RERUN_SITES):
+            evals += len(hist); count('rerun_same_query', len(hist))
+            f = rerun_case(style, src, g, hist, ['name', 'n', 'name', 'id', 'n'])
+            if f: fail(f)
+            else: nontriv.add(('rerun', style, src))
 
     # (d) identifiers: table / column names with quote characters, end to end on SQLite
     idents = ['we"ird', 'a""b', "it's", 'sel`ect', 'a.b', 'x y', 'p%q', 'über"'] if not deep else [s for s in strs if s and '\x00' not in s][:40]
@@ -774,6 +869,8 @@ def replay(ctx, data):
         miss = [s for s in data['strs'] if s not in back]
         if not miss: return None
         return Failure('unlisted:e2e:%s:store:%s' % (data['style'], classes(''.join(miss))), 'strings stored through the ORM read back differently: %r' % miss, data)
+    if kind == 'rerun':
+        return rerun_case(data['style'], data['src'], data['g'], [tuple(h) for h in data['hist']], data['names'])
     if kind == 'ident': return ident_case(data['name'])
     if kind == 'mysql_literal': return mysql_literal_case(data['s'])
     if kind == 'ident_fmt':
